@@ -21,6 +21,7 @@ def run(ctx, rep):
     pairing(prog, rep, "R06.3")
     geometry_inputs(prog, rep, "R06.4", only=("rectangle", "circle", "ellipse", "rounded_rectangle"))
     fill_search_fallback(prog, rep)
+    fill_search_whole_row(prog, rep)
     from rules import axis
     axis.run_for(ctx.program("default"), rep, 'R06.5', ['src/primitives/rectangle/styled.rs', 'src/primitives/primitive_style.rs', 'src/primitives/circle', 'src/primitives/ellipse', 'src/primitives/rounded_rectangle', 'src/primitives/common/styled_scanline.rs', 'src/primitives/common/scanline.rs'], 'stroke and fill areas of the closed shapes are computed per axis')
 
@@ -277,6 +278,42 @@ def geometry_inputs(prog, rep, rule, only=None):
                 elif p.endswith("::Scanlines::new") and "StyledScanlines" not in p:
                     ok = a[0][0] == "call" and a[0][1].endswith("::fill_area")
                     rep.check(ok, rule, "%s:%s:fill-generator" % (shape, which), "the fill-only generator must scan the fill area; scans %s" % show(a[0], maxd=2), at=f.span, fn=f.path)
+
+
+def fill_search_whole_row(prog, rep, rule="R06.7"):
+    """The styled scanlines of circle, ellipse and rounded rectangle find the fill range of a row by searching the
+    stroke scanline for the first column inside the fill area.  The search must run over the scanline's own column
+    range from its first column (and, where a last column is searched, back from its last): an iterator that skips
+    columns (`skip(stroke_width)`, a shifted range) misses fill columns wherever the stroke is thinner horizontally
+    than its nominal width — near the tips of a narrow ellipse."""
+    from mirq.paths import Paths, Unsupported
+    for shape in ("circle", "ellipse", "rounded_rectangle"):
+        try:
+            nx = prog.method1(PRIM + shape + "::styled::StyledScanlines", "next", "core::iter::traits::iterator::Iterator")
+        except Exception as e:
+            rep.fail(rule, shape + ":fill-search-row", "anchor lost: %s" % e, status="undecided")
+            continue
+        subjects = set()
+        try:
+            for sm in Paths(prog, inline=lambda g: prog.is_new(g), loops="once", limit=6000).of(nx):
+                for fct in sm.facts:
+                    for x in fct[1:]:
+                        if isinstance(x, tuple):
+                            for n in walk(x):
+                                if n[0] == "call" and n[1].split("::")[-1] in ("next", "next_back") and "Scanlines" not in n[1] and n[3]:
+                                    it = strip_refs(n[3][0])
+                                    while it[0] == "call" and it[1].split("::")[-1] in ("into_iter", "by_ref") and len(it[3]) == 1:
+                                        it = strip_refs(it[3][0])      # a `for` loop over the range
+                                    subjects.add(it)
+        except Unsupported as e:
+            rep.fail(rule, shape + ":fill-search-row", "cannot summarise: %s" % e, status="undecided", at=nx.span, fn=nx.path)
+            continue
+        row = ("field", ("payload", ("call", "*points::Scanlines as core::iter::traits::iterator::Iterator>::next", "_", ("_",))), 1)
+        ok_forms = (("call", "*::clone", "_", (row,)), row)
+        bad = [show(t, maxd=4) for t in subjects if not any(match(t, w) is not None for w in ok_forms)]
+        rep.check(bool(subjects) and not bad, rule, shape + ":fill-search-row",
+                  "the fill range of a styled scanline must be searched over the whole stroke scanline (scanline.x), found a search over %s" % ("; ".join(sorted(bad)[:2]) or "nothing"),
+                  at=nx.span, fn=nx.path)
 
 
 def fill_search_fallback(prog, rep, rule="R06.6"):
